@@ -1,6 +1,6 @@
-(* C08 — proof scripts (part 1: small facts) *)
+(* C08 — proof scripts, part 1: structural equality decides Leibniz equality; concrete refutations. *)
 From Coq Require Import List ZArith QArith Qabs Bool Lia.
-Require Import QV.C08.Model QV.C08.Spec.
+Require Import QV.C08.Model QV.C08.Spec QV.C08.Wf.
 Import ListNotations.
 Open Scope Q_scope.
 
@@ -9,3 +9,134 @@ Proof.
   destruct a as [n d], b as [n' d']; unfold Qsyn_eqb; cbn. intros H.
   apply andb_prop in H as [H1 H2]. apply Z.eqb_eq in H1. apply Pos.eqb_eq in H2. subst; reflexivity.
 Qed.
+
+Lemma list_eqb'_eq {A} (e : A -> A -> bool) (a : list A) :
+  Forall (fun x => forall y, e x y = true -> x = y) a -> forall b, list_eqb' e a b = true -> a = b.
+Proof.
+  induction 1 as [|x a Hx _ IH]; intros [|y b] H; cbn in H; try discriminate; auto.
+  apply andb_prop in H as [H1 H2]. f_equal; auto.
+Qed.
+Lemma list_eqb'_eq_all {A} (e : A -> A -> bool) :
+  (forall x y, e x y = true -> x = y) -> forall a b, list_eqb' e a b = true -> a = b.
+Proof. intros He a. apply list_eqb'_eq. apply Forall_forall. intros x _. apply He. Qed.
+
+Lemma N_eqb_eq' x y : N.eqb x y = true -> x = y. Proof. apply N.eqb_eq. Qed.
+Lemma interp_eqb_eq a b : interp_eqb a b = true -> a = b. Proof. destruct a, b; cbn; congruence. Qed.
+Lemma functor_eqb_eq a b : functor_eqb a b = true -> a = b. Proof. destruct a, b; cbn; congruence. Qed.
+Lemma aop_eqb_eq a b : aop_eqb a b = true -> a = b. Proof. destruct a, b; cbn; congruence. Qed.
+Lemma entry_eqb_eq a b : entry_eqb a b = true -> a = b.
+Proof.
+  destruct a, b; unfold entry_eqb; cbn. intros H.
+  apply andb_prop in H as [H H3]. apply andb_prop in H as [H1 H2].
+  apply Qsyn_eqb_eq in H1, H2. apply interp_eqb_eq in H3. subst; reflexivity.
+Qed.
+Lemma tval_eqb_eq a b : tval_eqb a b = true -> a = b.
+Proof.
+  destruct a, b; cbn; try discriminate; intros H.
+  - apply Qsyn_eqb_eq in H; subst; reflexivity.
+  - apply andb_prop in H as [H1 H2]. apply Qsyn_eqb_eq in H1, H2; subst; reflexivity.
+Qed.
+Lemma kv_eqb_eq {A} (e : A -> A -> bool) :
+  (forall x y, e x y = true -> x = y) -> forall a b, kv_eqb e a b = true -> a = b.
+Proof.
+  intros He [k v] [k' v']; unfold kv_eqb; cbn. intros H. apply andb_prop in H as [H1 H2].
+  apply N.eqb_eq in H1. apply He in H2. subst; reflexivity.
+Qed.
+
+Lemma trafo_eqb_eq : forall a b, trafo_eqb a b = true -> a = b.
+Proof.
+  induction a using trafo_ind'; intros b Hb; destruct b; cbn in Hb; try discriminate; auto.
+  - f_equal. eapply list_eqb'_eq_all; [|exact Hb]. apply kv_eqb_eq, tval_eqb_eq.
+  - f_equal. eapply list_eqb'_eq_all; [|exact Hb]. apply kv_eqb_eq, tval_eqb_eq.
+  - apply andb_prop in Hb as [Hb H3]. apply andb_prop in Hb as [H1 H2].
+    f_equal.
+    + eapply list_eqb'_eq_all; [|exact H1]. apply N_eqb_eq'.
+    + eapply list_eqb'_eq_all; [|exact H2]. apply N_eqb_eq'.
+    + eapply list_eqb'_eq_all; [|exact H3]. apply list_eqb'_eq_all, Qsyn_eqb_eq.
+  - f_equal. eapply list_eqb'_eq_all; [|exact Hb]. apply kv_eqb_eq, tval_eqb_eq.
+  - f_equal. revert l0 Hb. induction H as [|x l Hx _ IH]; intros [|y l'] Hb; try discriminate; auto.
+    apply andb_prop in Hb as [H1 H2]. f_equal; auto.
+Qed.
+
+Lemma wf_list_eqb_eq (l : list wf) :
+  Forall (fun x => forall y, wf_eqb x y = true -> x = y) l ->
+  forall l', (fix go (l l' : list wf) := match l, l' with
+                | [], [] => true
+                | x :: r, y :: r' => wf_eqb x y && go r r'
+                | _, _ => false end) l l' = true -> l = l'.
+Proof.
+  induction 1 as [|x l Hx _ IH]; intros [|y l'] Hb; try discriminate; auto.
+  apply andb_prop in Hb as [H1 H2]. f_equal; auto.
+Qed.
+
+(* Waveform.__eq__ (structural over the slots) decides equality of the modelled objects; hence equal waveforms have
+   equal channels, durations, constant values, samples, and any function of the object (a hash) agrees *)
+Theorem wf_eqb_eq : forall a b, wf_eqb a b = true -> a = b.
+Proof.
+  induction a using wf_ind'; intros b Hb; destruct b; cbn in Hb; try discriminate.
+  - apply andb_prop in Hb as [H1 H2]. apply N.eqb_eq in H1. subst. f_equal.
+    eapply list_eqb'_eq_all; [|exact H2]. apply entry_eqb_eq.
+  - apply andb_prop in Hb as [Hb H3]. apply andb_prop in Hb as [H1 H2].
+    apply Qsyn_eqb_eq in H1, H2. apply N.eqb_eq in H3. subst; reflexivity.
+  - apply andb_prop in Hb as [Hb H3]. apply andb_prop in Hb as [H1 H2].
+    apply Qsyn_eqb_eq in H2. apply N.eqb_eq in H3. subst. f_equal.
+    eapply list_eqb'_eq_all; [|exact H1]. apply Qsyn_eqb_eq.
+  - f_equal. eapply wf_list_eqb_eq; eauto.
+  - f_equal. eapply wf_list_eqb_eq; eauto.
+  - apply andb_prop in Hb as [H1 H2]. apply Z.eqb_eq in H2. f_equal; auto.
+  - apply andb_prop in Hb as [H1 H2]. apply trafo_eqb_eq in H2. f_equal; auto.
+  - apply andb_prop in Hb as [H1 H2]. f_equal; auto. eapply list_eqb'_eq_all; [|exact H2]. apply N_eqb_eq'.
+  - apply andb_prop in Hb as [Hb H3]. apply andb_prop in Hb as [H1 H2]. apply aop_eqb_eq in H2. f_equal; auto.
+  - apply andb_prop in Hb as [H1 H2]. f_equal; auto.
+    eapply list_eqb'_eq_all; [|exact H2]. apply kv_eqb_eq, functor_eqb_eq.
+  - f_equal; auto.
+Qed.
+
+Corollary eq_same_behaviour : forall a b, wf_eqb a b = true ->
+  channels a = channels b /\ duration a = duration b /\
+  (forall c, cv a c = cv b c) /\ (forall c t, sample a c t = sample b c t) /\
+  (forall c ts, get_sampled a c ts = get_sampled b c ts) /\ (forall (H : Type) (hash : wf -> H), hash a = hash b).
+Proof. intros a b E. apply wf_eqb_eq in E. subst. repeat split; reflexivity. Qed.
+
+(* the relation is not trivial: it holds on equal objects *)
+Lemma list_eqb'_refl {A} (e : A -> A -> bool) (a : list A) : Forall (fun x => e x x = true) a -> list_eqb' e a a = true.
+Proof. induction 1; cbn; auto. rewrite H; auto. Qed.
+Example eq_nontrivial :
+  let w := WSeq [WTable 1%N [mkE 0 1 Hold; mkE (1#2) 2 Linear]; WRep (WConst (1#4) 3 1%N) 2] in
+  wf_eqb w w = true /\ wf_eqb w (WSeq [WTable 1%N [mkE 0 1 Hold; mkE (1#2) 2 Jump]; WRep (WConst (1#4) 3 1%N) 2]) = false.
+Proof. vm_compute. split; reflexivity. Qed.
+
+(* ------------------------------------------------------------------------------------------------------------------ *)
+(* concrete refutations of the totality clause on the unchanged code (known findings) *)
+
+Definition tabA : wf := WTable 1%N [mkE 0 1 Hold; mkE (1#2) 2 Linear].
+Definition tabB : wf := WTable 1%N [mkE 0 5 Hold; mkE (1#2) 7 Linear].
+
+Lemma total_refuted_at_duration :
+  exists w c t, okb w = true /\ inb c (channels w) = true /\ Qle_bool 0 t = true /\ Qle_bool t (duration w) = true
+                /\ gs w c t = None /\ get_sampled w c [t] = OK [None].
+Proof. exists (WSeq [tabA; tabB]), 1%N, 1. vm_compute. repeat split; reflexivity. Qed.
+
+Lemma total_refuted_repetition :
+  exists w c t, okb w = true /\ inb c (channels w) = true /\ Qle_bool 0 t = true /\ Qle_bool t (duration w) = true
+                /\ gs w c t = None /\ get_sampled w c [t] = OK [None].
+Proof. exists (WRep tabA 2), 1%N, 1. vm_compute. repeat split; reflexivity. Qed.
+
+Lemma total_refuted_reversed_at_zero :
+  exists w c t, okb w = true /\ inb c (channels w) = true /\ Qeq_bool t 0 = true /\ Qltb t (duration w) = true
+                /\ gs w c t = None /\ get_sampled w c [t] = OK [None].
+Proof. exists (WRev (WSeq [tabA; tabB])), 1%N, 0. vm_compute. repeat split; reflexivity. Qed.
+
+(* the reversed composite answers an internal junction with the originally later piece; the denotation of DESIGN 4.4
+   (pieces in reversed order, each mirrored) has the end value of the originally earlier piece there *)
+Lemma reversed_junction_refuted :
+  exists w c t, okb w = true /\ inb c (channels w) = true /\ Qltb 0 t = true /\ Qltb t (duration w) = true
+                /\ oQeqb (gs (WRev w) c t) (Some 5) = true /\ oQeqb (den (WRev w) c t) (Some 2) = true
+                /\ oQeqb (gs (WRev w) c t) (den (WRev w) c t) = false.
+Proof. exists (WSeq [tabA; tabB]), 1%N, (1#2). vm_compute. repeat split; reflexivity. Qed.
+
+(* a reported constant is NOT what unsafe_sample answers at t = duration of a plain sequence of equal constants
+   (get_sampled hides it behind the constant short cut) *)
+Lemma constant_vs_unsafe_at_duration :
+  exists w c t v, okb w = true /\ cv w c = Some v /\ Qeq_bool t (duration w) = true /\ sample w c t = None /\ gs w c t = Some v.
+Proof. exists (WSeq [WConst 1 5 1%N; WConst 1 5 1%N]), 1%N, 2, 5. vm_compute. repeat split; reflexivity. Qed.
